@@ -103,6 +103,9 @@ func convertValueToFloat(value any, typ reflect.Type) (float64, error) {
 		}
 		return v, nil
 	case json.Number:
+		if !spellsDecimal(value.String()) {
+			return 0, conversionError("", value, typ)
+		}
 		v, err := strconv.ParseFloat(value.String(), 64)
 		if err != nil {
 			return 0, conversionError("", value, typ)
